@@ -118,7 +118,8 @@ Inductive outsel :=
 | ONorm                       (* NormalizationAnalyzer.percent_change / .z_score *)
 | OAnalytic                   (* HilbertAnalyzer.analytic, MorletWaveletAnalyzer.analytic *)
 | ODerived                    (* .amplitude .phase .real .imag of both *)
-| OFilt                       (* FilterAnalyzer.iir / .filtered_fourier / .filtered_boxcar *)
+| OFilt                       (* FilterAnalyzer.iir / .filtered_fourier / .filtered_boxcar; .filtfilt(b, a) on
+                                 the analyzer's own series and .filtfilt(b, a, in_ts=S): the input is then S *)
 | OFir (passes : nat)         (* FilterAnalyzer.fir with 0, 1 or 2 filtfilt passes *)
 | OXcorr                      (* CorrelationAnalyzer.xcorr / .xcorr_norm *)
 | OSnr                        (* snr.signal_noise: signal and noise series *)
